@@ -17,6 +17,9 @@ RULE = ("every prefix (dense near the start, strided after) and seeded single-by
 BUDGET_S = 6.0
 
 
+MEM_BUDGET_MB = 300      # peak-RSS growth allowed for one load of a file of a few kilobytes
+
+
 def bases(ctx, rng):
     """valid files of many versions: (name, bytes)"""
     out = []
@@ -104,6 +107,14 @@ def run(ctx):
             hdr = struct.pack("<H", m) + b"\r\n" + (b"\0" * 12 if v >= (3, 7) else b"\0" * 8 if v >= (3, 3) else b"\0" * 4)
             for n, p in hostile_payloads(hdr, v):
                 cases.append(("hostile:%d.%d:%s" % (v[0], v[1], n), p))
+        # the Dropbox 2.5 loader (magic 62135) goes through xdis.marsh's buffer reader, not xdis.unmarshal
+        i32 = lambda n: struct.pack("<i", n)
+        dhdr = struct.pack("<H", 62135) + b"\r\n" + b"\0" * 8
+        for n, p in hostile_payloads(dhdr, (2, 5)) + [
+                ("neg-string-loop", dhdr + b"[" + i32(0x7fffffff) + b"s" + i32(-5) + b"\0" * 40),
+                ("neg-unicode-loop", dhdr + b"(" + i32(0x7fffffff) + b"u" + i32(-5) + b"\0" * 40),
+                ("neg-interned-loop", dhdr + b"[" + i32(0x00ffffff) + b"t" + i32(-5) + b"\0" * 40)]:
+            cases.append(("hostile:dropbox2.5:%s" % n, p))
         for m in (3010, 3361, 62071, 62135, 62215, 2657, 22138, 12345):
             for tail in (b"\r\n", b"AA", b"\x00\x00"):
                 cases.append(("magic:%d:%s" % (m, tail.hex()), struct.pack("<H", m) + tail + b"\0" * 60))
@@ -135,6 +146,9 @@ def run(ctx):
                               dict(inp, call="xdis.load.load_module(file holding these bytes)", actual=r["outcome"]))
             elif r["events"]:
                 rep.violation("effect:%s" % name, "load_module on %s triggered %s" % (name, r["events"]), dict(inp, events=r["events"]))
+            elif r.get("rss_growth_mb", 0) > MEM_BUDGET_MB:
+                rep.violation("memory:%s" % name, "load_module on %s (%d bytes) grew the process's peak memory by %.0f MB" % (name, len(data), r["rss_growth_mb"]),
+                              dict(inp, rss_growth_mb=r["rss_growth_mb"]))
             elif r["wall"] > BUDGET_S:
                 rep.violation("slow:%s" % name, "load_module on %s took %.1f s (%d bytes)" % (name, r["wall"], len(data)), dict(inp, wall=r["wall"]))
             else:
